@@ -47,7 +47,7 @@ def build(ctx, leaves):
         pick = allpos if not ctx.quick else rng.sample(allpos, min(len(allpos), 3))
         for p in pick:
             cases.append((r.which, r.mt, base, [p], ["cover", r.mt] + names))
-    nrand = 2 if ctx.quick else 12
+    nrand = 1 if ctx.quick else 12
     for w in dc.SCHEMAS:
         s = dc.stock(w)
         for mt in s.bytype:
